@@ -288,4 +288,181 @@ def k4(ctx, kr):
     kr.assumptions = ['oracle: IEC 61131-3 tables 16/33 — the declared variable carries the class of its block and the qualifier written; combinations outside the grammar may be rejected']
     kr.outside = ['PROGRAM / FUNCTION / CONFIGURATION blocks; initialiser kinds; several blocks per POU']
 
-KERNELS = [k1, k4]
+
+# ---------------------------------------------------------------------------------------------- K5 statement sequences: nothing dropped, duplicated or reordered
+SEQ_ALPHA = ['Identifier', 'Assignment', 'Digits', 'Semicolon']
+
+def _seq_reference(types, TT):
+    """IEC 61131-3 B.3.2: statement_list ::= statement ';' {statement ';'}, statement ::= NIL | variable ':=' expression.
+    Over the alphabet {Identifier, ':=', Digits, ';'} a token sequence is a statement list iff it is a non-empty sequence of segments
+    `;` (empty statement) or `Identifier := (Identifier | Digits) ;`.  Returns (valid formula, [formula: a statement starts at position i])."""
+    I, A, D, S = [TT.index(x) for x in SEQ_ALPHA]
+    L = len(types)
+    st = [z3.BoolVal(True), z3.BoolVal(False), z3.BoolVal(False), z3.BoolVal(False)]      # one-hot DFA state: 0 segment start, 1 after Id, 2 after Id :=, 3 after the expression
+    dead = z3.BoolVal(False); starts = []
+    for i in range(L):
+        t = types[i]
+        starts.append(z3.And(st[0], t == I))
+        n0 = z3.Or(z3.And(st[0], t == S), z3.And(st[3], t == S))
+        n1 = z3.And(st[0], t == I); n2 = z3.And(st[1], t == A); n3 = z3.And(st[2], z3.Or(t == D, t == I))
+        dead = z3.Or(dead, z3.Not(z3.Or(n0, n1, n2, n3)))
+        st = [n0, n1, n2, n3]
+    return z3.And(z3.Not(dead), st[0]), starts
+
+def _seq_source(names):
+    lex = {'Identifier': None, 'Assignment': ':=', 'Digits': None, 'Semicolon': ';'}
+    return ' '.join(('v%d' % i) if n == 'Identifier' else (str(i + 1) if n == 'Digits' else lex[n]) for i, n in enumerate(names))
+
+def _k5_job(job):
+    L, prefixes = job
+    ctx = _CTX; part = Part()
+    P = ctx.program(CRATES)
+    TT = P.enums['TokenType']
+    key = P.find_fn('ironplc-parser', 'parser::plc_parser::statement_list')
+    M = Machine(P, max_steps=50_000_000)
+    sym = {}
+    def dom(t): return z3.Or([t == TT.index(x) for x in SEQ_ALPHA])
+    def entry(M):
+        types = []
+        for i in range(L):
+            t = M.fresh_bv('tt', 64); M.declare_domain(t, [TT.index(x) for x in SEQ_ALPHA]); types.append(t)
+        sym['t'] = types
+        toks = [tok(P, t, 'v%d' % i, i) for i, t in enumerate(types)]
+        for i, tk in enumerate(toks): tk.f[4] = SymTokText(i)
+        return M.call_fn(key, [Ref(Cell(Agg('SliceByRef', [Ref(Cell(VecV(toks)))])))])
+    def names_of(m): return [TT[m.eval(t, True).as_long()] for t in sym['t']]
+    def on_path(M, pr):
+        part.paths += 1
+        if pr.inconclusive: part.inconc(pr.inconclusive); return
+        types = sym['t']
+        s = z3.Solver(); s.add(*pr.pc); s.add(*[dom(t) for t in types])
+        valid, starts = _seq_reference(types, TT)
+        part.nontrivial += 1
+        def wit(role, what, cond, got=None):
+            s.push(); s.add(cond)
+            t0 = time.time(); r = s.check(); part.solver_s += time.time() - t0; part.queries += 1
+            if r == z3.sat:
+                names = names_of(s.model()); src = _seq_source(names)
+                part.add(role, '%s: `%s`%s' % (what, src, (' parses to statements assigning %s' % got) if got is not None else ''), {'statements': src, 'token_types': names}, ('stmt_seq', (src,)))
+            elif r == z3.unknown: part.inconc('solver unknown')
+            s.pop()
+            return r == z3.sat
+        if pr.panic: wit('C01/K5/panic', 'the statement list parser panics (%s)' % pr.panic.msg[:50], z3.BoolVal(True)); return
+        res = pr.result
+        if res.disc != 0:
+            wit('C01/K5/valid-rejected', 'a well-formed statement list is rejected', valid); return
+        got = []
+        for stv in res.f[0].items:
+            pos = _first_pos(M, stv)
+            got.append(pos)
+        if wit('C01/K5/invalid-accepted', 'a token sequence that is not a statement list is accepted', z3.Not(valid), got): return
+        if None in got: part.inconc('statement without a recognisable target'); return
+        if got != sorted(got) or len(set(got)) != len(got):
+            wit('C01/K5/statements-reordered', 'the statements come back reordered or duplicated (source positions %s)' % got, z3.BoolVal(True), ['v%d' % g for g in got]); return
+        wit('C01/K5/statements-dropped-or-invented', 'the statements returned are not the statements written',
+            z3.Or([starts[i] != z3.BoolVal(i in got) for i in range(L)]), ['v%d' % g for g in got])
+        if len(part.validate) < 1 and got:
+            if s.check() == z3.sat: part.validate.append(('stmt_seq', (_seq_source(names_of(s.model())),)))
+        if len(part.samples) < 1 and got: part.samples.append({'tokens': L, 'statement_targets_at': got})
+    if prefixes == 'split':
+        done, pending = M.split(entry, 14)
+        return [d.trace for d in done] + pending
+    M.explore(entry, on_path, prefixes=prefixes)
+    part.queries += M.stats['smt']; part.encoded = set(M.encoded); part.models = set(M.models_used)
+    return part
+
+def SymTokText(i):
+    # every token carries a text that identifies its position: identifiers v<i>, digits <i+1>; the text of other token types is never read
+    t = Str('v%d' % i); return t
+
+def _first_pos(M, v):
+    """source position of the first identifier spelled v<i> inside a statement value"""
+    stack = [v]
+    while stack:
+        x = stack.pop()
+        if isinstance(x, Str):
+            c = x.conc()
+            if c and re.fullmatch(r'v\d+', c): return int(c[1:])
+        elif isinstance(x, (Agg, EnumV)): stack.extend(reversed(x.f))
+        elif isinstance(x, VecV): stack.extend(reversed(x.items))
+        elif isinstance(x, Ref): stack.append(M.get(x.cell, x.path))
+    return None
+
+@replay_factory('stmt_seq')
+def _replay_stmt_seq(src):
+    def rp(ctx):
+        names = sorted(set(re.findall(r'v\d+', src)))
+        text = 'PROGRAM p\nVAR\n%sEND_VAR\n%s\nEND_PROGRAM\n' % (''.join('  %s : INT;\n' % n for n in names) or '  unused : INT;\n', src)
+        r = ctx.replay({'cmd': 'parse', 'source': text})
+        if 'panic' in r: return True, r
+        # reference on the concrete token sequence
+        toks = src.split(); want = []; okk = bool(toks); i = 0
+        while i < len(toks) and okk:
+            if toks[i] == ';': i += 1; continue
+            if i + 3 < len(toks) + 0 and re.fullmatch(r'v\d+', toks[i]) and toks[i + 1] == ':=' and re.fullmatch(r'v\d+|\d+', toks[i + 2]) and toks[i + 3] == ';': want.append(toks[i]); i += 4
+            else: okk = False
+        if not r.get('ok'): return okk, {'source': text, 'rejected': r.get('diag'), 'reference_valid': okk}
+        got = re.findall(r'Assignment\(Assignment \{ target: Symbolic\(Named\(NamedVariable \{ name: (v\d+)', r['debug'])
+        return (not okk) or got != want, {'source': text, 'parsed_targets': got, 'written_targets': want, 'reference_valid': okk}
+    return rp
+
+def _k5b(ctx, kr, P):
+    """flatten_statements on every list of <= 5 items, each `Empty` or `Statements` of 1..3 statements, no two runs adjacent (kinds and lengths symbolic):
+    the result is the concatenation of the runs in order"""
+    key = P.find_fn('ironplc-parser', 'parser::flatten_statements')
+    SOE = P.enums['StatementsOrEmpty']; iS = SOE.index('Statements')
+    M = Machine(P); st = {}
+    for n in range(1, 6):
+        def entry(M):
+            items = []; exp = []; shape = []
+            for i in range(n):
+                d = M.fresh_bv('kind%d' % i, 64); M.declare_domain(d, list(range(len(SOE))))
+                ln = M.fresh_bv('len%d' % i, 8); M.assume(z3.ULE(ln, 3))
+                k = M.enum_int(ln, 0, 3)
+                # lists the grammar can produce (statements_or_empty()+ with a greedy semisep): a run is non-empty and two runs are never adjacent
+                M.assume(z3.Implies(d == iS, ln != 0))
+                if exp: M.assume(z3.Not(z3.And(d == iS, exp[-1][0] == iS)))
+                run = [Str('s%d_%d' % (i, j)) for j in range(k)]
+                items.append(EnumV('StatementsOrEmpty', d, [VecV(list(run))])); exp.append((d, run)); shape.append(k)
+            st['exp'] = exp; st['shape'] = shape
+            return M.call_fn(key, [VecV(items)])
+        def on_path(M, pr):
+            kr.paths += 1
+            if pr.inconclusive: kr.inconc(pr.inconclusive); return
+            kr.nontrivial += 1
+            s = z3.Solver(); s.add(*pr.pc); kr.queries += 1
+            if s.check() != z3.sat: return
+            m = s.model()
+            kinds = [SOE[m.eval(d, True).as_long()] for d, _ in st['exp']]
+            want = [x.conc() for (d, run), kd in zip(st['exp'], kinds) if kd == 'Statements' for x in run]
+            desc = ' '.join('[%d statements]' % k if kd == 'Statements' else ';' for kd, k in zip(kinds, st['shape']))
+            src = ' '.join(' '.join('v%d := %d ;' % (10 * i + j, j) for j in range(k)) if kd == 'Statements' else ';' for i, (kd, k) in enumerate(zip(kinds, st['shape'])))
+            if pr.panic:
+                kr.findings.append(Finding('C01/K5/flatten-panic', 'flatten_statements panics on %s' % desc, {'runs': desc}, None)); return
+            got = [x.conc() for x in pr.result.items]
+            if got != want and not any(f.role == 'C01/K5/flatten-order' for f in kr.findings):
+                from framework import REPLAYS
+                kr.findings.append(Finding('C01/K5/flatten-order', 'the statement runs %s are flattened to %s instead of %s' % (desc, got, want), {'runs': desc, 'statements': src}, replay=REPLAYS['stmt_seq'](src) if all(kd == 'Empty' or k > 0 for kd, k in zip(kinds, st['shape'])) else None))
+        M.explore(entry, on_path)
+    kr.queries += M.stats['smt']; kr._enc = getattr(kr, '_enc', set()) | set(M.encoded)
+
+@kernel('K5 parser.statement_sequence')
+def k5(ctx, kr):
+    global _CTX
+    _CTX = ctx
+    LMAX = 9 if ctx.tier == 'quick' else 13
+    kr.bounds = 'statement_list over every token sequence of length 1..%d whose token types are symbolic over {Identifier, :=, Digits, ;}: accepted iff a statement list (empty statements allowed), and the statements returned are exactly the assignments written, in order; flatten_statements on every list of <= 5 items the grammar can produce (runs of 1..3 statements, never adjacent, and empty statements)' % LMAX
+    jobs = [(L, None) for L in range(min(LMAX, 9), 0, -1)]
+    big = [L for L in range(10, LMAX + 1)]
+    for L, pref in zip(big, par_map(_k5_job, [(L, 'split') for L in big])):
+        chunk = max(1, len(pref) // 12)
+        jobs = [(L, pref[i:i + chunk]) for i in range(0, len(pref), chunk)] + jobs
+    for part in par_map(_k5_job, jobs): merge_part(kr, part)
+    P = ctx.program(CRATES)
+    _k5b(ctx, kr, P)
+    kr.functions = fn_paths(P, getattr(kr, '_enc', set()))
+    kr.exhaustive = True
+    kr.assumptions = ['reference: IEC 61131-3 B.3.2 statement_list with NIL statements, as a DFA over the token types unrolled into a formula']
+    kr.outside = ['nested statement lists (IF/CASE/FOR bodies), other statement kinds, longer sequences']
+
+KERNELS = [k1, k4, k5]
